@@ -246,6 +246,36 @@ def readLines (pinned recurseDefault : Bool) : List Str → Except ReadErr Manif
 def read (pinned recurseDefault : Bool) (text : Str) : Except ReadErr Manifest :=
   readLines pinned recurseDefault (lines (univNewlines text))
 
+/-! ### the writers of the distrib types (`Distrib.writeManifest`), reached by `Repository.create` with `flavor=self.flavor` -/
+
+/-- how a distrib type writes a manifest: `DefaultDistrib.writeManifest` (builder, pacman, eupspkg inherit it) forwards
+the `flavor` keyword to `Manifest.write`; the tarball type forces `kwargs["flavor"] = None` first -/
+inductive Writer
+  | default
+  | tarball
+  deriving DecidableEq, Repr
+
+/-- the `flavor=` that reaches `Manifest.write` -/
+def writerFlavor : Writer → Option Str → Option Str
+  | .tarball, _ => none
+  | .default, f => f
+
+def sDotTable : Str := [46, 116, 97, 98, 108, 101]              -- .table
+
+/-- what `DefaultDistrib.writeManifest` does to an entry's table file before it writes: a missing one becomes `none`,
+any other is renamed `<product>-<version>.table` (the copy deployed under `tables/`) -/
+def distribTable (d : Dep) : Dep :=
+  { d with tablefile := if falsy d.tablefile then some sNone
+                        else if d.tablefile == some sNone then some sNone
+                        else some (d.product ++ [45] ++ d.version ++ sDotTable) }
+
+/-- the options with which a writer calls `Manifest.write(out, flavor=flavor, noOptional=False)` -/
+def writerOpts (w : Writer) (o : WriteOpts) : WriteOpts := { o with flavor := writerFlavor w o.flavor, noOptional := false }
+
+/-- `<type>.Distrib.writeManifest(serverDir, productDeps, product, version, flavor=flavor)`: the text of the manifest -/
+def distribWriteManifest (w : Writer) (o : WriteOpts) (m : Manifest) : Str :=
+  write (writerOpts w o) [] { m with deps := m.deps.map distribTable }
+
 /-! ### a manifest as a live object -/
 
 /-- `Manifest.read(file, setproduct, shouldRecurse)` into a manifest that may already hold entries: the entries of the
